@@ -33,6 +33,7 @@ func seqProfile(prop string, cas int, tier string) Profile {
 		if cas%8 == 5 {
 			p.ManyObjs = 45 // a directory with many long names
 		}
+		p.StallInstaller = cas%8 == 3
 		if cas%8 == 6 {
 			// a nearly full disk: requests that need more blocks than there are
 			// must fail as a whole (or, for WRITE, report the short count)
@@ -154,6 +155,7 @@ func seqProfile(prop string, cas int, tier string) Profile {
 		if cas%16 == 3 {
 			p.JournalReject = true
 		}
+		p.StallInstaller = cas%8 == 5
 	case "C12":
 		p.NOps = 220
 		p.DiskBlocks = []uint64{1800, 2400, 3200, 12000}[cas%4]
@@ -165,6 +167,7 @@ func seqProfile(prop string, cas int, tier string) Profile {
 		p.RestartEvery = 60
 		p.W[OpMkdir] = 1
 		p.W[OpSymlink] = 2
+		p.StallInstaller = cas%8 == 6
 		if cas%4 == 1 {
 			// nearly full: index blocks and data blocks compete for the last free blocks
 			p.NearFull = true
